@@ -574,3 +574,18 @@ Proof.
     assert (Hb : peak_chan ex_line false 0 = Some 8%nat) by (vm_compute; reflexivity).
     rewrite Hb in Hp. injection Hp as <-. exact HL.
 Qed.
+
+(* template 1 peaks on channel 3: no tie there (boundary_ok fails on ex_line only because of peaks like 8) *)
+Example ex_line_no_tie :
+  peak_chan ex_line false 1 = Some 3%nat /\ NoTie ex_line 3 /\ ~ NoTie ex_line 8 /\
+  (forall ch, In ch (chans_of ex_line false 1) <->
+              is_chan ex_line ch /\ on_shank_b ex_line 3 ch = true /\ dist_of ex_line 3 ch <= cut_of ex_line 3).
+Proof.
+  assert (Hp : peak_chan ex_line false 1 = Some 3%nat) by (vm_compute; reflexivity).
+  assert (Ht : NoTie ex_line 3) by (unfold NoTie; vm_compute; reflexivity).
+  split; [exact Hp|]. split; [exact Ht|]. split.
+  - unfold NoTie. intros H. vm_compute in H. discriminate.
+  - assert (H : legal_chans ex_line false 1 (chans_of ex_line false 1) = true) by (vm_compute; reflexivity).
+    apply legal_chans_no_tie in H. destruct H as (b & Hb & H). rewrite Hp in Hb. injection Hb as <-.
+    exact (proj2 (H Ht)).
+Qed.
